@@ -46,7 +46,7 @@ PAR = {'billing': 4, 'counters': 1, 'lifecycle': 1, 'deps': 1, 'groups': 1, 'can
 PAR_PAIRS = {'billing': (['compact', 'compact_by_date'], ['billing', 'complete', 'started', 'deactivate', 'unschedule', 'burst'])}
 
 # in how many of four cases a 'chain' is woven into the history (see strategies)
-CHAINS = {'lifecycle': 1, 'deps': 1, 'counters': 1, 'cancel': 2, 'instances': 1, 'groups': 1, 'billing': 1}
+CHAINS = {'lifecycle': 1, 'deps': 2, 'counters': 1, 'cancel': 2, 'instances': 1, 'groups': 1, 'billing': 1}
 
 
 def strategies(profile, max_ops=40):
@@ -153,7 +153,7 @@ def strategies(profile, max_ops=40):
     # completes' in well under 1% of cases.
     cstate = st.sampled_from([0, 0, 1, 2])
 
-    def chain(jp, ar, cpu, cst, mid_cancel, nest, cg, under):
+    def chain(jp, ar, cpu, cst, mid_cancel, nest, cg, under, race=False):
         # nest: the job sits at the bottom of a fresh chain of `nest` nested groups; a mid-life cancel then hits group index cg (any
         # level) and, with `under`, is followed by a multi-request update creating a group and a job beneath generated groups
         j = {'g': -nest if nest else 0, 'parents': [], 'cpu': cpu, 'pool': 2 if jp else 0}
@@ -169,6 +169,9 @@ def strategies(profile, max_ops=40):
             steps += [['creating', -1, 0, None], ['activate', -1], ['jp_schedule', -1]]
         else:
             steps += [['schedule', -1, 0]]
+            if race:
+                # a scheduling race leaves a second, stale attempt of the job on another instance, which is then lost
+                steps += [['instance', 0, True], ['schedule', -1, -1, None], ['deactivate', -1, 'preempted']]
         steps += [['started', -1, 0, None], ['complete', -1, cst, 0, 5, None, True, 1]]
         if under is not None and not mid_cancel and under[0] % 2 == 0:
             # once the job is done: an update that only adds job groups (no jobs) is opened, sent and committed
@@ -184,13 +187,14 @@ def strategies(profile, max_ops=40):
 
     chains = st.builds(chain, st.booleans(), st.booleans(), st.integers(0, 5), cstate, st.sampled_from([0, 0, 0, 1, 2, 3, 4]),
                        st.sampled_from([0, 0, 1, 2, 3]), st.integers(0, 4),
-                       st.one_of(st.none(), st.tuples(st.integers(0, 5), st.integers(0, 5)).map(list)))
+                       st.one_of(st.none(), st.tuples(st.integers(0, 5), st.integers(0, 5)).map(list)), st.sampled_from([False, False, True]))
     child = st.fixed_dictionaries({'g': st.integers(0, 3), 'parents': st.lists(st.sampled_from([-1, -1, 0, 1, 2]), min_size=1, max_size=2),
                                    'cpu': st.integers(0, 5)}, optional={'ar': st.booleans(), 'pool': st.sampled_from([0, 0, 2])})
 
     def weave(c, f, steps, at, kids, gaps, tail):
         ops = prefix + [f]
-        at = 1 + at % len(steps)
+        # (one case in three: the children arrive once the chain's job is terminal -- e.g. failed -- while their other parents live on)
+        at = len(steps) if at >= 5 else 1 + at % len(steps)
         for i, s_ in enumerate(steps):
             if i == at:
                 # parents: -1 -> the chain's job (the most recently reserved id), others -> any existing job
